@@ -131,8 +131,8 @@ func run(c *checker, rng *lib.Rng) {
 	maxNodes, nRandom, nText, nData := 6, 20000, 6000, 1500
 	coqExh, coqRandom, coqText, coqScalar, coqPb := 500, 500, 700, 1200, 500
 	if thorough {
-		maxNodes, nRandom, nText, nData = 7, 300000, 60000, 20000
-		coqExh, coqRandom, coqText, coqScalar, coqPb = 2500, 2500, 3000, 5000, 2500
+		maxNodes, nRandom, nText, nData = 8, 600000, 100000, 40000
+		coqExh, coqRandom, coqText, coqScalar, coqPb = 5000, 5000, 6000, 8000, 5000
 	}
 	// ---- corpus
 	for _, e := range corpus() {
